@@ -1528,12 +1528,17 @@ func instMulUpperSSMeta(interp *Interpreter, instr *InstrMeta) (ExitReason, Prog
 	signedA := int64(interp.Registers[rA])
 	signedB := int64(interp.Registers[rB])
 
-	hi, _ := bits.Mul64(uint64(abs(signedA)), uint64(abs(signedB)))
+	hi, lo := bits.Mul64(uint64(abs(signedA)), uint64(abs(signedB)))
 
 	if (signedA < 0) == (signedB < 0) {
 		interp.Registers[rD] = hi
 	} else {
-		interp.Registers[rD] = uint64(-int64(hi))
+		// negate the 128-bit product: the high word borrows from a non-zero low word
+		hi = -hi
+		if lo != 0 {
+			hi--
+		}
+		interp.Registers[rD] = hi
 	}
 
 	return ExitContinue, instr.PC
